@@ -226,6 +226,11 @@ def main():
                             disc += 1
                         else:
                             recs.append(r)
+        for d0, d1, m in job.get("pinned", []):
+            for fn in (ticks_record, nice_record):
+                r = fn(d0, d1, m)
+                if r is not None:
+                    recs.append(r)
         for _ in range(job.get("count", 0)):
             mag = 10.0 ** rng.uniform(-6, 9)
             span = mag * 10.0 ** rng.uniform(-3.5, 1.5)
